@@ -270,13 +270,9 @@ func c09Exec(x *Ctx) {
 	if peer.TagReuse > 0 {
 		x.Probe("tag-value-reused-after-free")
 	}
-	// tags are recycled: the number of distinct tag values stays close to the peak concurrency
-	// (the client keeps up to 16 request slots with their tags cached)
-	// (judged in the long-run stratum only: with more callers than cached slots the pool hands tags out
-	// first-in first-out, so under high concurrency many different values are legitimately seen)
-	if lim := peer.MaxOutst + 16 + len(st.gs); longrun > 0 && c.cfg("lrwidth") == 0 && len(distinctTags) > lim+8 {
-		x.Violate("c3-tags-not-recycled", "%d distinct tag values were used although at most %d calls were ever outstanding (%d requests in all)", len(distinctTags), peer.MaxOutst, len(peer.Reqs))
-	}
+	// "tags and request slots are recycled so that an unbounded number of calls can be made": decided by the
+	// long runs themselves (more calls than there are tag values, in the wide run also more tag-pool round trips);
+	// how many different values a correct client uses on the way is its own business
 	x.ProbeN("calls", len(peer.Reqs))
 	x.ProbeN("distinct-tag-values", len(distinctTags))
 	x.FaultN("seg-split", cc.In.Splits+cs.In.Splits)
